@@ -32,11 +32,24 @@ Monitor : written from the property statement, evaluated on the real output by w
           string, a list echoing their arguments, 7, None, [], "", a tuple or the object itself; values include
           bytes (a built-in primitive for which a handler may be registered; outside the model's universe: the model
           is consulted only where a handler replaces them).
+Unsupported built-in types: field values of every built-in / library type that is in none of the supported tuples (EXOTIC:
+          complex, bytearray, memoryview, range, slice, type objects, functions, built-in functions, generators, Ellipsis,
+          NotImplemented, object(), Fraction, deque, array) — directly as field values, unhandled (must be omitted), with a
+          handler for exactly their type, with a None entry; drawn at random in the programs and enumerated in a fixed battery
+          (`_type_battery`: every EXOTIC kind and every member of the supported tuples x attribute-dict / slotted class x handler
+          option).  The tuples of the code under test (`utils.ITERABLE_TYPES`, `PRIMITIVE_TYPES`, `jsonclass.SUPPORTED_TYPES`, …)
+          are read at run time and compared with the model's tables (component `jctables`; no extractor involved); the
+          monitor's own list of supported types is written from the documentation of the library, not read from the code.
+          Enumerations of every flavour (jcenv.gen_enum_spec) and every notation of Decimal occur as in C07; a member of an
+          enumeration derived from a primitive type is a primitive for dump (emitted as it is; monitor only).
 """
+import array
+import collections
 import copy
 import datetime
 import decimal
 import enum
+import fractions
 import json
 
 import gen
@@ -155,6 +168,41 @@ for _c, _exc in HOSTILE:
 BYTES = [b"", b"ab", b"\x00\xff", "é".encode("utf-8"), b"secret-bytes"]
 
 
+# Values of built-in / library types that are in none of the supported tuples.  (kind = type(value).__name__, constructor,
+# stateless: instances have neither a __dict__ entry nor slots, so that the generic instance form is `[name, []]` with no
+# attribute — only those get `None` entries in handler tables.)
+def _exotic_function(x=0):
+    return x
+
+
+def _exotic_generator():
+    yield 1
+
+
+EXOTIC = [
+    ("complex", lambda: complex(1, -2), True),
+    ("bytearray", lambda: bytearray(b"ab"), True),
+    ("memoryview", lambda: memoryview(b"ab"), True),
+    ("range", lambda: range(3), True),
+    ("slice", lambda: slice(1, 5, 2), True),
+    ("type", lambda: int, False),
+    ("function", lambda: _exotic_function, True),
+    ("builtin_function_or_method", lambda: len, True),
+    ("generator", _exotic_generator, True),
+    ("ellipsis", lambda: Ellipsis, True),
+    ("NotImplementedType", lambda: NotImplemented, True),
+    ("object", object, True),
+    ("Fraction", lambda: fractions.Fraction(1, 3), False),
+    ("deque", lambda: collections.deque([1]), True),
+    ("array", lambda: array.array("i", [1]), True),
+]
+EXOTIC_MAKE = dict((k, mk) for k, mk, _st in EXOTIC)
+EXOTIC_STATELESS = dict((k, st) for k, _mk, st in EXOTIC)
+EXOTIC_TYPES = dict((k, type(mk())) for k, mk, _st in EXOTIC)
+assert all(t.__name__ == k for k, t in EXOTIC_TYPES.items())
+EXOTIC_KIND = dict((t, k) for k, t in EXOTIC_TYPES.items())
+
+
 class Env20(jcenv.Env):
     """Class environment with library classes: instances of those are opaque for the model (no field of theirs is
     ever read by dump: they have neither a __dict__ nor __slots__); the codec carries their value as a pseudo
@@ -169,7 +217,7 @@ class Env20(jcenv.Env):
             elif s["kind"] == "decimal":
                 c = decimal.Decimal
             elif s["kind"] == "enum":
-                c = enum.Enum(s["name"], list(s["members"]), module=s["module"])
+                c = jcenv.make_enum(s)
             else:
                 c = self._exec_class(s)
             self.cls[s["id"]] = c
@@ -177,6 +225,10 @@ class Env20(jcenv.Env):
 
     def hook(self, v):
         t = type(v)
+        if t in EXOTIC_KIND:
+            # outside the value universe of the model: an opaque instance whose exact type tag is the type's name (no class of
+            # the environment: neither supported nor, unless a handler is registered for the tag, handled)
+            return (EXOTIC_KIND[t], [("kind", EXOTIC_KIND[t])])
         if t is datetime.timedelta:
             return ("datetime.timedelta", [("value", str(v))])
         if t in (datetime.date, datetime.datetime):
@@ -210,6 +262,8 @@ class ValueGen20(jcenv.ValueGen):
         self.missing_attr = False
         self.nonlist_ignore = False
         self.hostile = []  # ids of the hostile classes instantiated
+        self.exotic = []  # kinds of the values of unsupported built-in types stored in fields
+        self.snan = False  # a signalling NaN was generated: every comparison with it raises InvalidOperation
 
     def value(self, depth, allow_obj=True, obj_top=True):
         # bytes: a built-in primitive type (utils.PRIMITIVE_TYPES) at any position
@@ -230,9 +284,11 @@ class ValueGen20(jcenv.ValueGen):
             self.hostile.append(cid)
             return c(rng.randint(0, 3))
         if s["kind"] == "decimal":
-            return decimal.Decimal(rng.choice(jcenv.DECIMALS))
+            d = decimal.Decimal(rng.choice(jcenv.DECIMALS))
+            self.snan = self.snan or d.is_snan()
+            return d
         if s["kind"] == "enum":
-            return c[rng.choice([m for m, _v in s["members"]])]
+            return self.enum_member(cid)
         if s["kind"] == "serial":
             inst = c(*[self.plain() for _ in s["params"]])
             for a in s["attrs"]:
@@ -251,6 +307,12 @@ class ValueGen20(jcenv.ValueGen):
         for n, _v in env.stored(inst):
             r = rng.random()
             if r < 0.25:
+                continue
+            if rng.random() < 0.07:
+                # a value of a built-in type that is in none of the supported tuples, directly as a field value
+                kind = rng.choice(EXOTIC)[0]
+                self.exotic.append(kind)
+                setattr(inst, n, EXOTIC_MAKE[kind]())
                 continue
             if r < 0.45 and depth >= 0:
                 # an instance directly as a field value: unsupported unless its type is handled — now and then one that
@@ -275,7 +337,7 @@ class ValueGen20(jcenv.ValueGen):
 def gen_env(ctx, rng, tag, cfg_names, clean):
     """Random hierarchy of C07 + class-level ignore lists + serialisation methods under several names + library classes."""
     specs = jcenv.gen_specs(rng, gen, tag, ignore_attr=cfg_names[1], method=cfg_names[0], with_ignore=0.45,
-                            local_ratio=rng.choice([0.0, 0.35, 1.0]))
+                            local_ratio=rng.choice([0.0, 0.35, 1.0]), flavours=True)
     for s in specs:
         if s["kind"] == "serial" and rng.random() < 0.5:
             s["method"] = rng.choice(METHOD_NAMES)  # may differ from the name in force: dumped field-wise then
@@ -340,13 +402,21 @@ def handler_table(rng, env, clean, present):
              ["tuple", "str", "int", "list", "dict", "bool", "float", "NoneType", "set", "frozenset", "bytes"]]
     for _ in range(n):
         t = rng.choice(rng.choice(pools))
+        if t == "object":
+            continue  # the universal base class: a handler entry for it makes *every* value an instance of a handled type
         if t not in tags:
             tags.append(t)
-    return [(t, rng.choice(hf_ids)) for t in tags]
+    out = []
+    for t in tags:
+        h = rng.choice(hf_ids)
+        if h is None and not EXOTIC_STATELESS.get(t, True):
+            h = 0  # a None entry makes the type "known" and falls through to the generic form: only for stateless kinds
+        out.append((t, h))
+    return out
 
 
 def py_type(env, tag):
-    return jcenv.BUILTIN_TYPES.get(tag) or env.cls[tag]
+    return jcenv.BUILTIN_TYPES.get(tag) or EXOTIC_TYPES.get(tag) or env.cls[tag]
 
 
 # ---- the monitor (from the property statement) ----------------------------------------------------------------
@@ -404,6 +474,12 @@ class Monitor(object):
             return
         self.positions.add("builtin@" + pos + ":" + self.kind_of(obj))
         t = type(obj)
+        base = getattr(self.env, "prim_base", lambda _v: None)(obj)
+        if base is not None:
+            # a member of an enumeration derived from a primitive type is a value of that primitive type: emitted as it is
+            if not (out is obj or (type(out) is base and out == obj.value)):
+                self.hit("primitive-changed", path, "%r (a %s, no handler for %s) became %r" % (obj, base.__name__, t.__name__, out))
+            return
         if obj is None or t in (bool, int, float, str, bytes):
             if not (type(out) is t and (out == obj or out != out)):
                 self.hit("primitive-changed", path, "%r (no handler for %s) became %r" % (obj, t.__name__, out))
@@ -574,10 +650,13 @@ def run(ctx):
             _run_env(ctx, env, cfg_names, clean, per_env, lines, expect)
         finally:
             env.uninstall()
+    _type_battery(ctx, lines, expect)
     # the paths on which a configuration reaches jsonclass.dump, and Config.copy itself (run first: separate random stream)
     copy_cases = _config_copy(ctx)
     _config_paths(ctx)
-    outs = ctx.lean(lines + [c[0] for c in copy_cases])
+    outs = ctx.lean(lines + [c[0] for c in copy_cases] + ["jctables"])
+    import props.c07 as c07
+    c07.check_type_tables(ctx, outs.pop())
     for (ln, want, case), mo in zip(copy_cases, outs[len(lines):]):
         got = [pyval.canon(part) for part in mo.split(" | ")][:len(want)] if " | " in mo else [mo]
         if got != want:
@@ -606,6 +685,11 @@ def run(ctx):
     ctx.assumptions.append("for an object that defines the serialisation method in force, the values of the attributes the method "
                            "returns are emitted as they are (no recursive dump, no handler, no test of the value against the ignore "
                            "lists: C20_method_form); the ignore lists are applied to their names (C20_ignore)")
+    ctx.assumptions.append("the monitor's list of supported types (dict, list, set, frozenset, tuple, bytes, str, int, float, bool, None) is "
+                           "written from the library's documentation; values of %d other built-in / library types (EXOTIC) are opaque "
+                           "instances with their type name as exact type tag for the model (neither supported nor, without a handler "
+                           "entry, handled); members of enumerations derived from a primitive type are primitives for dump "
+                           "(%d cases decided by the monitor alone)" % (len(EXOTIC), ctx.extra.get("prim_enum_monitor_only", 0)))
     ctx.assumptions.append("bytes are outside the value universe of the model: a bytes node is an opaque instance with type tag "
                            "'bytes' for it (replaced when a handler is registered for bytes, 'Unmodelled' otherwise: %d such cases "
                            "were decided by the monitor alone)" % ctx.extra.get("bytes_monitor_only", 0))
@@ -662,6 +746,13 @@ def _run_env(ctx, env, cfg_names, clean, per_env, lines, expect):
         if vg.hostile and not hostile_known and _tuple_with_hostile(v, env) and _tuple_entries(v, env, ig_arg):
             hostile_known = True
             ctx.hist["hostile/inside-a-tuple-compared-with-a-tuple-entry"] += 1
+        # … and a signalling NaN of a handled Decimal type: every comparison with it raises decimal.InvalidOperation
+        if vg.snan and htypes and issubclass(decimal.Decimal, htypes):
+            hostile_known = True
+            ctx.hist["hostile/signalling-NaN-of-a-handled-Decimal"] += 1
+        for kind in vg.exotic:
+            ctx.hist["unsupported-builtin/%s/%s" % (kind, "handled" if any(t == kind for t, _h in handlers) else "unhandled")] += 1
+        c07.note_specials(ctx, v, env)
         for cid in set(vg.hostile):
             ctx.hist["hostile/%s/%s/%s" % (cid.split(".")[-1], "handled" if htypes and issubclass(env.cls[cid], htypes) else "unsupported",
                                          "ignore-list" if (ig_arg or _has_ignore_lists(v, env, ia_arg or cfg_names[1])) else "no-ignore-list")] += 1
@@ -677,6 +768,10 @@ def _run_env(ctx, env, cfg_names, clean, per_env, lines, expect):
         if direct_bytes_field(v, env):
             # isinstance(value, SUPPORTED_TYPES) holds for bytes; the model has no bytes: monitor only
             ctx.extra["bytes_monitor_only"] = ctx.extra.get("bytes_monitor_only", 0) + 1
+            continue
+        if c07.has_prim_member(v, env):
+            # a member of an enumeration derived from a primitive type: no class of the model; monitor only
+            ctx.extra["prim_enum_monitor_only"] = ctx.extra.get("prim_enum_monitor_only", 0) + 1
             continue
         lines.append("jcdump %s %s %s %s" % (pyval.enc(jcenv.lean_cfg(cfg.serialize_method, cfg.ignore_attribute, handlers)),
                                              lean_env, pyval.enc([sm_arg, ia_arg, ig_arg]), vtext))
@@ -744,6 +839,64 @@ def _has_ignore_lists(v, env, ia, depth=0):
             return True
         return any(_has_ignore_lists(x, env, ia, depth + 1) for _n, x in env.stored(v))
     return False
+
+
+# ---- every type of / outside the supported tuples, as a field value ---------------------------------------------------------
+
+BATTERY_SPECS = [
+    {"id": "bat.Holder", "module": "jrv_battery", "name": "Holder", "bases": [], "slots": None, "kind": "bean",
+     "own": [("a", 1), ("b", "x")], "class_attrs": {}},
+    {"id": "bat.SlotHolder", "module": "jrv_battery", "name": "SlotHolder", "bases": [], "slots": ["a", "b"], "kind": "bean",
+     "own": [("a", 1), ("b", "x")], "class_attrs": {}},
+]
+SUPPORTED_SAMPLES = [("dict", lambda: {"k": 1}), ("list", lambda: [1, "x"]), ("set", lambda: set([1])), ("frozenset", lambda: frozenset([2])),
+                     ("tuple", lambda: (1, 2)), ("bytes", lambda: b"ab"), ("str", lambda: "s"), ("int", lambda: 5), ("float", lambda: 2.5),
+                     ("bool", lambda: True), ("NoneType", lambda: None)]
+
+
+def _type_battery(ctx, lines, expect):
+    """Every kind of EXOTIC (must be omitted unless handled) and every member of the supported tuples (must be dumped), directly
+    as a field value of an attribute-dict and of a slotted object: without handler, with a handler for exactly its type, with a
+    None entry for its type (stateless kinds), and with a handler for another type."""
+    import props.c07 as c07
+    env = Env20(EXTERNALS + [dict(x) for x in BATTERY_SPECS] + [dict(jcenv.DEC_SPEC)]).install()
+    try:
+        lean_env = env.enc(env.lean_classes())
+        for kind, mk, supported in [(k, m, False) for k, m, _s in EXOTIC] + [(k, m, True) for k, m in SUPPORTED_SAMPLES]:
+            options = [[], [(kind, 1)], [("tuple" if kind != "tuple" else "str", 0)]]
+            if EXOTIC_STATELESS.get(kind, True):
+                options.append([(kind, None)])
+            if kind == "object":
+                options = [[], [("tuple", 0)]]  # no handler entry for the universal base class (see handler_table)
+            for cid in ("bat.Holder", "bat.SlotHolder"):
+                for handlers in options:
+                    inst = env.cls[cid]()
+                    inst.a = mk()
+                    v = [inst]
+                    k, d, hits, positions, cfg = run_case(env, ("_serialize", "_ignore"), handlers, (None, None, None), v)
+                    case = {"value_enc": env.enc(v), "value": repr(v)[:200] + " with .a = %r" % (inst.a,), "cfg_names": ["_serialize", "_ignore"],
+                            "handlers": [[t, h] for t, h in handlers], "args": [None, None, None], "ig_enc": None,
+                            "specs_enc": pyval.enc(_specs_plain(env))}
+                    for key, detail in hits[:3]:
+                        ctx.violate(case, detail, key=key)
+                    if k == "err":
+                        ctx.violate(case, "dump raised %s: %s on an object holding a %s in a field" % (type(d).__name__, d, kind),
+                                    key="dump-raises:" + type(d).__name__)
+                    hname = "no-handler" if not handlers else ("other-type" if handlers[0][0] != kind else
+                                                               ("none-entry" if handlers[0][1] is None else "handled"))
+                    ctx.hist["type-battery/%s/%s/%s" % ("supported" if supported else "unsupported", kind, hname)] += 1
+                    ctx.count(nontrivial_key=("battery", kind, cid, hname, k), kind="battery/%s" % k)
+                    if kind == "bytes":
+                        continue  # no bytes in the model
+                    try:
+                        dexp = impl.canon_outcome(k, d, env.hook, keep_arg=())
+                    except pyval.Unencodable:
+                        continue
+                    lines.append("jcdump %s %s %s %s" % (pyval.enc(jcenv.lean_cfg(cfg.serialize_method, cfg.ignore_attribute, handlers)),
+                                                         lean_env, pyval.enc([None, None, None]), env.enc(v)))
+                    expect.append((False, dexp))
+    finally:
+        env.uninstall()
 
 
 # ---- Config.copy and the paths on which a configuration reaches jsonclass.dump ------------------------------------------
@@ -1196,12 +1349,17 @@ def replay(payload):
                 return EXT_TYPES[cls].fromisoformat(fd["value"])
             if cls == "bytes":
                 return bytes.fromhex(fd["hex"])
+            if cls in EXOTIC_MAKE:
+                return EXOTIC_MAKE[cls]()
             s = env.by_id[cls]
             c = env.cls[cls]
             if s["kind"] == "decimal":
                 return c(fd["str"])
             if s["kind"] == "enum":
-                return c[fd["name"]]
+                try:
+                    return c[fd["name"]]
+                except KeyError:
+                    return c(fd["value"])
             inst = c.__new__(c)
             for n, x in fields:
                 setattr(inst, n, x)
